@@ -1,5 +1,172 @@
 import Dashu.Proofs.Int.Bits
+/-
+  C09 — Bit operations follow infinite two's-complement semantics.
+
+  Property theorems only (helper lemmas live in `Dashu/Proofs/Int/Bits.lean`).  Every statement
+  quantifies over all word sizes `W ≥ 1` and all operands in canonical form (`TRepr.Canon`,
+  `SCanon`: what every constructor and operation of the library produces — the producer side of
+  that claim is C05/C17); nothing is bounded in length.
+
+  Specification side (`Dashu/Model/Int/Bits.lean`, section "spec"):
+    `specBit x i`   bit `i` of `x` in two's complement with infinitely many sign bits
+                    (= `(x / 2^i) % 2 = 1` with floor division; proved equal to Mathlib's `Int.testBit`)
+    `specAnd/specOr/specXor/compl`  computed through complement identities on naturals and proved
+                    below to be *characterised bit by bit* (`spec_and_bits` …) — and an integer is
+                    determined by its bits (`int_determined_by_bits`), so these are the only
+                    functions with that property.
+-/
 namespace Dashu.Props.C09
 open Dashu.Model
-theorem placeholder : True := trivial
+
+-- ================================================================== the specification is two's complement
+
+/-- the spec's bit function is Mathlib's `Int.testBit` -/
+theorem spec_bit_is_testBit (x : Int) (i : Nat) : specBit x i = Int.testBit x i :=
+  specBit_eq_testBit x i
+
+/-- an integer is determined by its two's-complement bits -/
+theorem int_determined_by_bits (a b : Int) (h : ∀ i, specBit a i = specBit b i) : a = b :=
+  int_eq_of_specBit_eq a b h
+
+theorem spec_and_bits (x y : Int) (i : Nat) : specBit (specAnd x y) i = (specBit x i && specBit y i) :=
+  specBit_specAnd x y i
+theorem spec_or_bits (x y : Int) (i : Nat) : specBit (specOr x y) i = (specBit x i || specBit y i) :=
+  specBit_specOr x y i
+theorem spec_xor_bits (x y : Int) (i : Nat) : specBit (specXor x y) i = (specBit x i ^^ specBit y i) :=
+  specBit_specXor x y i
+theorem spec_not_bits (x : Int) (i : Nat) : specBit (compl x) i = !specBit x i :=
+  specBit_compl x i
+
+-- ================================================================== & | ^ ! on IBig (sign tables of bits.rs)
+
+/-- `IBig & IBig` (impl_ibig_bitand ∘ unsigned and/or/and_not ∘ sub_one/add_one): every bit of the
+    result is the AND of the operand bits, and the result is canonical. -/
+theorem ibig_and (W : Nat) (hW : 1 ≤ W) (a b : SRepr) (ha : SCanon W a) (hb : SCanon W b) :
+    (∀ i, Int.testBit ((ibigAnd W a b).value W) i
+        = (Int.testBit (a.value W) i && Int.testBit (b.value W) i)) ∧
+    SCanon W (ibigAnd W a b) := by
+  have ⟨e, c⟩ := ibigAnd_spec W hW a b ha hb
+  refine ⟨fun i => ?_, c⟩
+  rw [e, specAnd_eq_land, Int.testBit_land]
+
+/-- `IBig | IBig` -/
+theorem ibig_or (W : Nat) (hW : 1 ≤ W) (a b : SRepr) (ha : SCanon W a) (hb : SCanon W b) :
+    (∀ i, Int.testBit ((ibigOr W a b).value W) i
+        = (Int.testBit (a.value W) i || Int.testBit (b.value W) i)) ∧
+    SCanon W (ibigOr W a b) := by
+  have ⟨e, c⟩ := ibigOr_spec W hW a b ha hb
+  refine ⟨fun i => ?_, c⟩
+  rw [e, specOr_eq_lor, Int.testBit_lor]
+
+/-- `IBig ^ IBig` -/
+theorem ibig_xor (W : Nat) (hW : 1 ≤ W) (a b : SRepr) (ha : SCanon W a) (hb : SCanon W b) :
+    (∀ i, Int.testBit ((ibigXor W a b).value W) i
+        = (Int.testBit (a.value W) i ^^ Int.testBit (b.value W) i)) ∧
+    SCanon W (ibigXor W a b) := by
+  have ⟨e, c⟩ := ibigXor_spec W hW a b ha hb
+  refine ⟨fun i => ?_, c⟩
+  rw [e, specXor_eq_xor, Int.testBit_lxor]
+
+/-- `!IBig` -/
+theorem ibig_not (W : Nat) (hW : 1 ≤ W) (a : SRepr) (ha : SCanon W a) :
+    (∀ i, Int.testBit ((ibigNot W a).value W) i = !Int.testBit (a.value W) i) ∧
+    (ibigNot W a).value W = -(a.value W) - 1 ∧ SCanon W (ibigNot W a) := by
+  have ⟨e, c⟩ := ibigNot_spec W hW a ha
+  refine ⟨fun i => ?_, e, c⟩
+  rw [e, compl_eq_lnot, Int.testBit_lnot]
+
+/-- the same tables as *values*: what the driver compares on every run -/
+theorem ibig_and_value (W : Nat) (hW : 1 ≤ W) (a b : SRepr) (ha : SCanon W a) (hb : SCanon W b) :
+    (ibigAnd W a b).value W = specAnd (a.value W) (b.value W) := (ibigAnd_spec W hW a b ha hb).1
+theorem ibig_or_value (W : Nat) (hW : 1 ≤ W) (a b : SRepr) (ha : SCanon W a) (hb : SCanon W b) :
+    (ibigOr W a b).value W = specOr (a.value W) (b.value W) := (ibigOr_spec W hW a b ha hb).1
+theorem ibig_xor_value (W : Nat) (hW : 1 ≤ W) (a b : SRepr) (ha : SCanon W a) (hb : SCanon W b) :
+    (ibigXor W a b).value W = specXor (a.value W) (b.value W) := (ibigXor_spec W hW a b ha hb).1
+
+/-- `UBig & IBig -> UBig` and `IBig & UBig -> UBig` give the same value as converting both operands
+    to `IBig` first (the result of the signed AND is then non-negative) -/
+theorem mixed_and (W : Nat) (a : TRepr) (b : SRepr) (ha : a.Canon W) (hb : SCanon W b) :
+    ((ubigIbigAnd W a b).value W : Int) = specAnd (a.value W) (b.value W) ∧
+    ((ibigUbigAnd W b a).value W : Int) = specAnd (b.value W) (a.value W) ∧
+    (ubigIbigAnd W a b).Canon W ∧ (ibigUbigAnd W b a).Canon W :=
+  ⟨(ubigIbigAnd_spec W a b ha hb).1, (ibigUbigAnd_spec W b a hb ha).1,
+   (ubigIbigAnd_spec W a b ha hb).2, (ibigUbigAnd_spec W b a hb ha).2⟩
+
+/-- primitive forms (`IBig & u8 -> u8` etc.): `x & v` with `0 ≤ v` lies in `[0, v]`, hence the
+    `try_into().unwrap()` of `impl_binop_with_primitive` cannot fail -/
+theorem and_with_nonneg_fits (x : Int) (v : Nat) : 0 ≤ specAnd x v ∧ specAnd x v ≤ v := by
+  rcases Int.lt_or_le x 0 with hx | hx
+  · obtain ⟨m, rfl⟩ : ∃ m : Nat, x = -(m : Int) := ⟨x.natAbs, by omega⟩
+    have hm : m ≠ 0 := by omega
+    rw [specAnd_np m v hm]
+    have := natAndNot_le v (m - 1)
+    omega
+  · obtain ⟨m, rfl⟩ : ∃ m : Nat, x = (m : Int) := ⟨x.toNat, by omega⟩
+    rw [specAnd_pp]
+    have := @Nat.and_le_right m v
+    omega
+
+/-- unsigned operators on magnitudes (all four ownership variants are this function) -/
+theorem ubig_and_or_xor (W : Nat) (a b : TRepr) (ha : a.Canon W) (hb : b.Canon W) :
+    ((a.bitand W b).value W = a.value W &&& b.value W ∧ (a.bitand W b).Canon W) ∧
+    ((a.bitor W b).value W = a.value W ||| b.value W ∧ (a.bitor W b).Canon W) ∧
+    ((a.bitxor W b).value W = a.value W ^^^ b.value W ∧ (a.bitxor W b).Canon W) ∧
+    ((∀ i, ((a.andNot W b).value W).testBit i = ((a.value W).testBit i && !(b.value W).testBit i)) ∧
+      (a.andNot W b).Canon W) := by
+  refine ⟨TRepr.bitand_spec W a b ha hb, TRepr.bitor_spec W a b ha hb, TRepr.bitxor_spec W a b ha hb,
+    fun i => ?_, (TRepr.andNot_spec W a b ha hb).2⟩
+  rw [(TRepr.andNot_spec W a b ha hb).1, testBit_natAndNot]
+
+-- ================================================================== shifts
+
+/-- `<<` is multiplication by `2^n` (UBig and, with the sign carried over, IBig) -/
+theorem shl_exact (W : Nat) (hW : 1 ≤ W) (m : TRepr) (n : Nat) (hm : m.Canon W) :
+    (m.shl W n).value W = m.value W * 2 ^ n ∧ (m.shl W n).Canon W :=
+  TRepr.shl_spec W hW m n hm
+
+theorem ibig_shl_exact (W : Nat) (hW : 1 ≤ W) (a : SRepr) (n : Nat) (ha : SCanon W a) :
+    (ibigShl W a n).value W = specShl (a.value W) n ∧ SCanon W (ibigShl W a n) := by
+  have ⟨e, c⟩ := TRepr.shl_spec W hW a.mag n ha.1
+  refine ⟨?_, withSign_wf W _ _ c⟩
+  unfold ibigShl specShl
+  rw [withSign_value, e]
+  obtain ⟨an, am⟩ := a
+  cases an <;> simp <;> push_cast <;> ring
+
+/-- UBig `>>` is division by `2^n`, in both the owning and the borrowing implementation -/
+theorem shr_exact (W : Nat) (hW : 1 ≤ W) (m : TRepr) (n : Nat) (byRef : Bool) (hm : m.Canon W) :
+    (m.shr W n byRef).value W = m.value W / 2 ^ n ∧ (m.shr W n byRef).Canon W :=
+  TRepr.shr_spec W hW m n byRef hm
+
+/-- IBig `>>` with the repaired `are_dword_low_bits_nonzero` (clamp to `DWORD_BITS`,
+    proposed_fixes/are_dword_low_bits_nonzero.diff) is floor division by `2^n`, for all inputs. -/
+theorem ibig_shr_floor_fixed (W : Nat) (hW : 1 ≤ W) (a : SRepr) (n : Nat) (byRef : Bool)
+    (ha : SCanon W a) :
+    ibigShr W true a n byRef = (a.value W) / (2 : Int) ^ n :=
+  ibigShr_fixed W hW a n byRef ha
+
+/- FULL statement, false for the code as it is on the pinned commit (see the counterexample):
+   theorem ibig_shr_floor_full … : ibigShr W false a n byRef = (a.value W) / 2 ^ n            -/
+
+/-- IBig `>>` of the code AS IS is floor division outside the defect class (`shrDefect`: negative
+    inline value, `n > W`, low word zero, a set bit among bits `W .. min(n,2W)-1`) — the same
+    predicate is the `match` of the known finding. -/
+theorem ibig_shr_floor_partial (W : Nat) (hW : 1 ≤ W) (a : SRepr) (n : Nat) (byRef : Bool)
+    (ha : SCanon W a) (hnd : shrDefect W a n = false) :
+    ibigShr W false a n byRef = (a.value W) / (2 : Int) ^ n :=
+  ibigShr_asis W hW a n byRef ha hnd
+
+/-- the hypothesis is needed: `(-(2^64)) >> 100` is `0` in the code as it is, floor division gives `-1` -/
+theorem ibig_shr_asis_counterexample :
+    SCanon 64 ⟨true, .small (2 ^ 64)⟩ ∧ shrDefect 64 ⟨true, .small (2 ^ 64)⟩ 100 = true ∧
+    ibigShr 64 false ⟨true, .small (2 ^ 64)⟩ 100 = 0 ∧
+    (SRepr.value 64 ⟨true, .small (2 ^ 64)⟩) / (2 : Int) ^ 100 = -1 := by
+  refine ⟨by decide, by decide, by decide, by decide⟩
+
+-- non-vacuity: a negative 3-word heap operand and a 2-word inline operand are canonical, and the
+-- model computes (−2^130) & (−2^64 − 1) through the (Negative, Negative) arm
+example : SCanon 64 ⟨true, .large [0, 0, 4]⟩ ∧ SCanon 64 ⟨true, .small (2 ^ 64 + 1)⟩ ∧
+    (ibigAnd 64 ⟨true, .large [0, 0, 4]⟩ ⟨true, .small (2 ^ 64 + 1)⟩).value 64 = -(2 ^ 130) := by
+  refine ⟨by decide, by decide, by decide⟩
+
 end Dashu.Props.C09
